@@ -15,6 +15,7 @@ Section TyInd.
   Hypothesis Hbool : P TBool.
   Hypothesis Hint : forall lo hi, P (TInt lo hi).
   Hypothesis Hany : P TAny.
+  Hypothesis Hconst : forall c, P (TConst c).
   Hypothesis Hobjany : P TObjAny.
   Hypothesis Hopt : forall t, P t -> P (TOpt t).
   Hypothesis Hvec : forall t, P t -> P (TVec t).
@@ -23,7 +24,7 @@ Section TyInd.
   Fixpoint ty_ind' (t : ty) : P t :=
     match t with
     | TStr => Hstr | TId c => Hid c | TEnum al => Henum al | TBool => Hbool | TInt lo hi => Hint lo hi
-    | TAny => Hany | TObjAny => Hobjany
+    | TAny => Hany | TConst c => Hconst c | TObjAny => Hobjany
     | TOpt t' => Hopt t' (ty_ind' t') | TVec t' => Hvec t' (ty_ind' t') | TMap c t' => Hmap c t' (ty_ind' t')
     | TStruct fs =>
         Hstruct fs ((fix go (fs : list (fmeta * ty)) : Forall (fun ft => P (snd ft)) fs :=
@@ -138,6 +139,7 @@ Fixpoint enum_ok (al : list (str * str)) (all : list (str * str)) : bool :=
 Fixpoint wf_ty (t : ty) : bool :=
   match t with
   | TEnum al => enum_ok al al
+  | TConst c => nodup_deep c && negb (json_eqb c JNull)
   | TOpt t' => wf_ty t'
   | TVec t' | TMap _ t' => wf_ty t'
   | TStruct fs =>
@@ -195,6 +197,7 @@ Section Proofs.
     | TBool, VBool _ => True
     | TInt lo hi, VInt z => (lo <= z <= hi)%Z
     | TAny, VAny j => nodup_deep j = true
+    | TConst c, VAny j => j = c
     | TObjAny, VAny j => (exists m, j = JObj m) /\ nodup_deep j = true
     | TOpt _, VNone => True
     | TOpt t', VSome v' => ok t' v' /\ ser t' v' <> Some JNull   (* [Some(None)] / [Some(Null)] print as `null`, which reads back as [None]: such values never come from the wire *)
@@ -380,7 +383,7 @@ Section Proofs.
 
   Lemma default_of_ok t : forall d, default_of t = Some d -> ok t d.
   Proof.
-    induction t as [|c|al| |lo hi| | |t IH|t IH|c t IH|fs IH] using ty_ind'; intros d H; cbn [default_of] in H;
+    induction t as [|c|al| |lo hi| |k| |t IH|t IH|c t IH|fs IH] using ty_ind'; intros d H; cbn [default_of] in H;
       try discriminate; try (injection H as <-; cbn; auto).
     - destruct ((lo <=? 0)%Z && (0 <=? hi)%Z) eqn:E; [|discriminate]. injection H as <-. cbn. lia.
     - split; [now exists []|reflexivity].
@@ -407,19 +410,21 @@ Section Proofs.
   Qed.
 
   (** what [deser] reads from a non-null JSON value never prints as `null` *)
-  Lemma deser_ser_not_null t : forall j v, deser t j = Some v -> j <> JNull -> ser t v <> Some JNull.
+  Lemma deser_ser_not_null t : wf_ty t = true -> forall j v, deser t j = Some v -> j <> JNull -> ser t v <> Some JNull.
   Proof.
-    induction t as [|c|al| |lo hi| | |t IH|t IH|c t IH|fs IH] using ty_ind'; intros j v H Hj; cbn [Serde.deser] in H.
+    induction t as [|c|al| |lo hi| |k| |t IH|t IH|c t IH|fs IH] using ty_ind'; intros Hwf j v H Hj; cbn [Serde.deser] in H.
     - destruct j; try discriminate. injection H as <-. discriminate.
     - destruct j; try discriminate. destruct (valid c s); [|discriminate]. injection H as <-. discriminate.
     - destruct j; try discriminate. injection H as <-. discriminate.
     - destruct j; try discriminate. injection H as <-. discriminate.
     - destruct j; try discriminate. destruct ((lo <=? z)%Z && (z <=? hi)%Z); [|discriminate]. injection H as <-. discriminate.
     - injection H as <-. cbn. congruence.
+    - injection H as <-. cbn [ser]. cbn [wf_ty] in Hwf. apply andb_true_iff in Hwf as [_ Hk].
+      intros E. injection E as ->. cbn in Hk. discriminate.
     - destruct j; try discriminate. injection H as <-. discriminate.
-    - destruct j; try contradiction;
+    - cbn [wf_ty] in Hwf. destruct j; try contradiction;
         (destruct (Serde.deser valid t _) as [v'|] eqn:E; [|discriminate]; injection H as <-; cbn [ser];
-         eapply IH; [exact E|discriminate]).
+         eapply IH; [exact Hwf|exact E|discriminate]).
     - destruct j; try discriminate.
       match type of H with option_map _ ?x = _ => destruct x; [|discriminate] end. injection H as <-.
       cbn [ser]. match goal with |- option_map _ ?x <> _ => destruct x end; discriminate.
@@ -434,7 +439,7 @@ Section Proofs.
   (** values produced by [deser] satisfy [ok] *)
   Lemma deser_ok t : wf_ty t = true -> forall j v, nodup_deep j = true -> deser t j = Some v -> ok t v.
   Proof.
-    induction t as [|c|al| |lo hi| | |t IH|t IH|c t IH|fs IH] using ty_ind'; intros Hwf j v Hj H; cbn [Serde.deser] in H.
+    induction t as [|c|al| |lo hi| |k| |t IH|t IH|c t IH|fs IH] using ty_ind'; intros Hwf j v Hj H; cbn [Serde.deser] in H.
     - destruct j; try discriminate. injection H as <-. exact I.
     - destruct j; try discriminate. destruct (valid c s) eqn:E; [|discriminate]. injection H as <-. exact E.
     - destruct j; try discriminate. injection H as <-. cbn. now apply enum_idem.
@@ -442,11 +447,12 @@ Section Proofs.
     - destruct j; try discriminate. destruct ((lo <=? z)%Z && (z <=? hi)%Z) eqn:E; [|discriminate].
       injection H as <-. cbn. lia.
     - injection H as <-. exact Hj.
+    - injection H as <-. reflexivity.
     - destruct j; try discriminate. injection H as <-. split; [eauto|exact Hj].
     - cbn [wf_ty] in Hwf.
       destruct j; try (injection H as <-; exact I);
         (destruct (Serde.deser valid t _) as [v'|] eqn:E; [|discriminate]; injection H as <-; cbn;
-         split; [eapply IH; eauto | eapply deser_ser_not_null; [exact E|discriminate]]).
+         split; [eapply IH; eauto | eapply deser_ser_not_null; [exact Hwf|exact E|discriminate]]).
     - destruct j; try discriminate. cbn [wf_ty] in Hwf. cbn [nodup_deep] in Hj.
       fold (deser_vec t l) in H. destruct (deser_vec t l) as [vs|] eqn:E; [|discriminate]. injection H as <-.
       cbn. fold (ok_vec t vs). revert vs E. induction l as [|x l IHl]; intros vs E; cbn in E.
@@ -566,7 +572,7 @@ Section Proofs.
   (** ** serialize, then deserialize: the value comes back *)
   Theorem roundtrip t : wf_ty t = true -> forall v, ok t v -> exists j, ser t v = Some j /\ deser t j = Some v.
   Proof.
-    induction t as [|c|al| |lo hi| | |t IH|t IH|c t IH|fs IH] using ty_ind'; intros Hwf v Hok.
+    induction t as [|c|al| |lo hi| |k| |t IH|t IH|c t IH|fs IH] using ty_ind'; intros Hwf v Hok.
     - destruct v; try contradiction. eexists; split; reflexivity.
     - destruct v; try contradiction. cbn in Hok. eexists; split; [reflexivity|]. cbn. now rewrite Hok.
     - destruct v; try contradiction. cbn in Hok. eexists; split; [reflexivity|]. cbn. now rewrite Hok.
@@ -574,6 +580,7 @@ Section Proofs.
     - destruct v; try contradiction. cbn in Hok. eexists; split; [reflexivity|]. cbn.
       replace ((lo <=? z)%Z && (z <=? hi)%Z) with true by lia. reflexivity.
     - destruct v; try contradiction. eexists; split; reflexivity.
+    - destruct v; try contradiction. cbn in Hok. subst. eexists; split; reflexivity.
     - destruct v; try contradiction. destruct Hok as [[m ->] _]. eexists; split; reflexivity.
     - cbn [wf_ty] in Hwf.
       destruct v; try contradiction.
@@ -628,9 +635,10 @@ Section Proofs.
 
   Theorem ser_nodup t : wf_ty t = true -> forall v j, ok t v -> ser t v = Some j -> nodup_deep j = true.
   Proof.
-    induction t as [|c|al| |lo hi| | |t IH|t IH|c t IH|fs IH] using ty_ind'; intros Hwf v j Hok H;
+    induction t as [|c|al| |lo hi| |k| |t IH|t IH|c t IH|fs IH] using ty_ind'; intros Hwf v j Hok H;
       destruct v; try contradiction; cbn [ser] in H; try (injection H as <-; reflexivity).
     - injection H as <-. exact Hok.
+    - injection H as <-. cbn in Hok. subst. cbn [wf_ty] in Hwf. now apply andb_true_iff in Hwf as [Hwf _].
     - injection H as <-. now destruct Hok.
     - cbn [wf_ty] in Hwf. destruct Hok as [Hok _]. eapply IH; eauto.
     - cbn [wf_ty] in Hwf. change (option_map JArr (ser_vec t l) = Some j) in H.
